@@ -390,7 +390,8 @@ type vDialEv struct {
 }
 
 type vdialer struct {
-	stateCalls func(*BaseClient) // what the application does inside its ConnState callback
+	flavour    func(conn int) int // transport flavour per connection (see memConn.flavour)
+	stateCalls func(*BaseClient)  // what the application does inside its ConnState callback
 	b          *vbroker
 	mu         sync.Mutex
 
@@ -485,6 +486,9 @@ func (d *vdialer) DialContext(ctx context.Context) (*BaseClient, error) {
 	c := &vbConn{id: k, b: d.b, typeCount: map[int]int{}, ackCount: map[int]int{}}
 	c.mc = newMemConn(k, d.b.log, c)
 	c.mc.maxRead = d.maxRead
+	if d.flavour != nil {
+		c.mc.flavour = d.flavour(k)
+	}
 	if d.unsafe {
 		c.mc.unsafeMode, c.mc.yieldEvery = true, 2
 	}
